@@ -45,11 +45,46 @@ def run(run, h):
     Mrp = h.call("m_from_parts", M.key["kp_hex"], M.rev_hex, M2.rp["hex"])[0]
     Mrev = h.call("m_from_parts", M.key["kp_hex"], M2.rev_hex, M.rp["hex"])[0]
     reps = 1 if run.tier == "quick" else 4
+    M.one_element_keys = one_element_keys(run, h, rng, M, M2)
     for _ in range(reps):
         establish_substitutions(run, h, pts, batch, rng, M, M2)
         pay_substitutions(run, h, pts, batch, rng, M, M2, Mrp, Mrev)
         replays(run, h, pts, rng, M, M2)
     batch.flush()
+
+
+class KeyVariant:
+    pass
+
+
+def one_element_keys(run, h, rng, M, M2):
+    """merchants whose PUBLIC key differs from M's in exactly one element (taken from M2's key at the same position); the
+    secret half and all parameters are M's. Such a configuration can only be assembled from bytes (merchant::Config::from_parts
+    on a spliced KeyPair). 'Any single component of the tuple' includes every element of the key: one element from each group of
+    positions (g1, Y_i, g~, X~, Y~_i) and two more (thorough: all thirteen)."""
+    a, a2 = M.atoms, M2.atoms
+    atoms = [a["g1"]] + list(a["y1s"]) + [a["g2"], a["x2"]] + list(a["y2s"])
+    atoms2 = [a2["g1"]] + list(a2["y1s"]) + [a2["g2"], a2["x2"]] + list(a2["y2s"])
+    names = ["g1"] + ["y1_%d" % i for i in range(5)] + ["g2", "x2"] + ["y2_%d" % i for i in range(5)]
+
+    def pk_wire(at):
+        return at[0] + le8(5) + "".join(at[1:6]) + at[6] + at[7] + le8(5) + "".join(at[8:13])
+    kp = M.key["kp_hex"]
+    if not kp.endswith(pk_wire(atoms)):
+        run.count("one-element key variants skipped (unexpected KeyPair layout)")
+        return []
+    sk_part = kp[:len(kp) - len(pk_wire(atoms))]
+    ks = list(range(13)) if run.tier == "thorough" else sorted({0, rng.randrange(1, 6), 6, 7, rng.randrange(8, 13), rng.randrange(13), rng.randrange(8, 13)})
+    out = []
+    for k in ks:
+        t = h.try_call("m_from_parts", sk_part + pk_wire(atoms[:k] + [atoms2[k]] + atoms[k + 1:]), M.rev_hex, M.rp["hex"])
+        if t is None:
+            run.count("one-element key variant does not decode: " + names[k])
+            continue
+        v = KeyVariant()
+        v.handle, v.name = t[0], names[k]
+        out.append(v)
+    return out
 
 
 def establish_substitutions(run, h, pts, batch, rng, M, M2):
@@ -81,6 +116,8 @@ def establish_substitutions(run, h, pts, batch, rng, M, M2):
             ("ctx_extended", (M, cid, cb, mb, ctx + b"\x00"))]
     for i in (range(len(ctx)) if run.tier == "thorough" else rng.sample(range(len(ctx)), 4)):
         subs.append(("ctx_byte", (M, cid, cb, mb, ctx[:i] + bytes([ctx[i] ^ 0x80]) + ctx[i + 1:])))
+    for v in M.one_element_keys:
+        subs.append(("key_element_" + v.name, (v, cid, cb, mb, ctx)))
     for name, (Mx, cid_, cb_, mb_, ctx_) in subs:
         if not (0 <= cb_ <= 2 ** 63 - 1 and 0 <= mb_ <= 2 ** 63 - 1) or (cb_, mb_) == (cb, mb) and name == "swap_balances":
             continue
@@ -125,6 +162,8 @@ def pay_substitutions(run, h, pts, batch, rng, M, M2, Mrp, Mrev):
             ("ctx_truncated", (M.handle, amt, nonce, ctx[:32]))]
     for i in (range(len(ctx)) if run.tier == "thorough" else rng.sample(range(len(ctx)), 3)):
         subs.append(("ctx_byte", (M.handle, amt, nonce, ctx[:i] + bytes([ctx[i] ^ 1]) + ctx[i + 1:])))
+    for v in M.one_element_keys:
+        subs.append(("key_element_" + v.name, (v.handle, amt, nonce, ctx)))
     for name, (hd, a_, n_, c_) in subs:
         if n_ == CLOSE:
             continue
